@@ -159,7 +159,12 @@ def check_case(case, res=None):
                 cj = {"tree": tree, "xml": gencase.xml_of(tree),
                       "items": [{"cls": it["cls"], "dir": it["dir"], "objs": [oj], "mode": it["mode"]}]}
                 # ---- construction with caller-owned lists (and generators), then caller-side mutation
-                kw = s.builder.kwargs(cls, c["body"], obj)
+                try:
+                    kw = s.builder.kwargs(cls, c["body"], obj)
+                except Exception as e:  # noqa: a nested constructor refused a valid value - C01's business
+                    if res is not None:
+                        res.labels[f"obj:nested_ctor_{type(e).__name__}"] += 1
+                    continue
                 owned = {k: v for k, v in kw.items() if isinstance(v, list)}
                 kw_gen = dict(kw)
                 for k, v in owned.items():
